@@ -165,10 +165,11 @@ def plan(tier):
         mv = mutex_vectors((1, 2, 3), (0, 1, 2)) + mutex_vectors((4,), (0, 1, 2), cyc=True)
         msp = 'holders n<=3: kinds x mode x release style (full product); n=4: every kind combination, mode/release style cycling'
     mv = dedup(mv)
+    mv = [v + [0] for v in mv] + [v + [1] for v in mv if v[1] >= 2 and any(k < 2 for k in v[3:-1])]
     units.append(dict(engine='e1', name='h_mutex', tu='C20.cpp', defines=('C20_PART=4',), entry='h_mutex', unwind=7, vectors=mv,
                       concrete=pick(mv, ()), cbmc_extra=FS, timeout=600,
-                      space='mutex programs [mode, n-1, kind_0, kinds of the contenders (non-decreasing), release style]: holder 0 takes the free mutex (coroutine heap/placement frame, blocking thread, try_lock), '
-                            'n-1 contenders queue up (coroutine heap/placement frame, blocking thread), every holder releases in turn (ownership destructor / release() discarded / release() awaited or cleared); ' + msp,
+                      space='mutex programs [mode, n-1, kind_0, kinds of the contenders (non-decreasing), release style, pre]: holder 0 takes the free mutex (coroutine heap/placement frame, blocking thread, try_lock), '
+                            'n-1 contenders queue up (coroutine heap/placement frame, blocking thread), every holder releases in turn (ownership destructor / release() discarded / release() awaited or cleared); pre = 1 (programs with >= 2 contenders): the contending coroutines release at once when they get the mutex, i.e. inside the hand-over that resumed them; ' + msp,
                       data='none', bounds='<= 4 holders (1 owner + 3 contenders)', outside='more than 3 contenders; contention from other threads (C07/C08)'))
     # ---- suspend point
     sv = sp_vectors(not quick)
